@@ -297,6 +297,7 @@ func CheckC04(p *Pkg, e *Env, r *res.Result) {
 		if len(unmapped) > 0 {
 			r.LabelN("unmappable", int64(len(unmapped)))
 			r.Sample(map[string]any{"package": p.Name, "unmappable": unmapped}, 3)
+			reportUnlinkedParams(p, e, r, op, unmapped)
 			continue
 		}
 		var qh []ParamDecl
@@ -593,6 +594,7 @@ func CheckC05(p *Pkg, e *Env, r *res.Result) {
 		if len(unmapped) > 0 {
 			r.LabelN("unmappable", int64(len(unmapped)))
 			r.Sample(map[string]any{"package": p.Name, "unmappable": unmapped}, 3)
+			reportUnlinkedParams(p, e, r, op, unmapped)
 			continue
 		}
 		ti := tplInfo{op: op, segs: strings.Split(strings.TrimPrefix(op.Template, "/"), "/")}
@@ -741,5 +743,20 @@ func CheckC05(p *Pkg, e *Env, r *res.Result) {
 	ok, _ := rt.Check("C05-"+p.Name, rt.Seed(e.Seed, rt.SeedStr("C05"), uint64(p.Index)), n, 10*time.Second, prop)
 	if !ok && lastFail != nil {
 		r.Fail(*lastFail)
+	}
+}
+
+// reportUnlinkedParams: every declared parameter of an operation (its own and the path
+// item's, the operation's declaration winning) has exactly one field in the generated
+// params struct; a parameter without a field cannot be parsed into anything.
+func reportUnlinkedParams(p *Pkg, e *Env, r *res.Result, op *Op, unmapped []string) {
+	for _, u := range unmapped {
+		if !strings.Contains(u, "has no unique field") {
+			continue
+		}
+		f := res.Failure{Property: e.Check, Kind: "declared-parameter-has-no-field", Clause: "declared-parameter-has-no-field",
+			Detail: fmt.Sprintf("%s: %s", op, u), Replay: p.SpecReplay(map[string]any{"operation.txt": op.String()})}
+		FailOrKnown(p, e, r, f)
+		return
 	}
 }
